@@ -611,7 +611,7 @@ class C17(core.Check):
                 break
             if rr[0] == "exc":
                 bump("raised_as_model")
-                if rr[1][1].rsplit(".", 1)[-1] != mr[1][1].rsplit(".", 1)[-1]:
+                if not isinstance(rr[2], type(mr[2])):  # same class as an ordinary dict raises, or a subclass of it
                     violation = viol("exception_class", op, {"real": rr[1], "model": mr[1]})
                     break
             else:
